@@ -103,41 +103,41 @@ package influxql
 //@   loop 2 decreases len(a) - i
 
 //@ func FormatDuration
-//@   props C08
+//@   props C08 C02
 //@   safety C08
 //@   ensures result == spec_formatDuration(d)
 
 // the unit chosen by the formatter divides d, is the largest unit that does,
 // and the printed count times the unit is d again without overflow:
-//@ lemma fmtUnitDivides [C08] forall d int64 :: d != 0 ==> spec_isUnit(spec_fmtUnit(d)) && d % spec_fmtUnit(d) == 0
-//@ lemma fmtUnitLargest [C08] forall d int64, u int64 :: d != 0 && spec_isUnit(u) && d % u == 0 ==> u <= spec_fmtUnit(d)
-//@ lemma fmtRoundTrip [C08] forall d int64 :: d != 0 && d != MinInt64 ==> (d / spec_fmtUnit(d)) * spec_fmtUnit(d) == d && -(d / spec_fmtUnit(d)) <= MaxInt64 && (d / spec_fmtUnit(d)) <= MaxInt64
+//@ lemma fmtUnitDivides [C08, C02] forall d int64 :: d != 0 ==> spec_isUnit(spec_fmtUnit(d)) && d % spec_fmtUnit(d) == 0
+//@ lemma fmtUnitLargest [C08, C02] forall d int64, u int64 :: d != 0 && spec_isUnit(u) && d % u == 0 ==> u <= spec_fmtUnit(d)
+//@ lemma fmtRoundTrip [C08, C02] forall d int64 :: d != 0 && d != MinInt64 ==> (d / spec_fmtUnit(d)) * spec_fmtUnit(d) == d && -(d / spec_fmtUnit(d)) <= MaxInt64 && (d / spec_fmtUnit(d)) <= MaxInt64
 
 // ---------------------------------------------------------------- C06 quoting
 
 //@ func isWhitespace
-//@   props C06 C05 C16
+//@   props C06 C02 C05 C16
 //@   ensures result == spec_isWhitespace(ch)
 //@ func isLetter
-//@   props C06 C05
+//@   props C06 C02 C05
 //@   ensures result == spec_isLetter(ch)
 //@ func isDigit
-//@   props C06 C05 C08
+//@   props C06 C02 C05 C08
 //@   ensures result == spec_isDigit(ch)
 //@ func isIdentChar
-//@   props C06 C05
+//@   props C06 C02 C05
 //@   ensures result == spec_isIdentChar(ch)
 //@ func isIdentFirstChar
-//@   props C06
+//@   props C06 C02
 //@   ensures result == spec_isIdentFirst(ch)
 
 // escaper tables, read from the initialisers of the two replacers
-//@ replacer qsReplacer [C06] quote '\''
-//@ replacer qiReplacer [C06] quote '"'
+//@ replacer qsReplacer [C06, C02] quote '\''
+//@ replacer qiReplacer [C06, C02] quote '"'
 
 // ScanString: rune stream (rsin r k), cursor rscur(r); the opening delimiter is the first rune read.
 //@ func ScanString
-//@   props C06
+//@   props C06 C02
 //@   safety C06 C04
 //@   let q = rsin(r, entry(rscur(r)))
 //@   let k = rscur(r)
@@ -153,18 +153,18 @@ package influxql
 //@   ensures result1 == nil ==> k >= old(k) + 2 && spec_scanKind(q, rsin(r, k-1), 0) == 1
 
 // per-rune lemmas: the scanner step inverts the escaper and cannot be terminated by escaped text
-//@ lemma escScanInverse2 [C06] forall q rune, c rune :: (q == '\'' || q == '"') && c != 0 && spec_escSecond(q, c) != 0 ==>
+//@ lemma escScanInverse2 [C06, C02] forall q rune, c rune :: (q == '\'' || q == '"') && c != 0 && spec_escSecond(q, c) != 0 ==>
 //@     | spec_scanKind(q, spec_escFirst(q, c), spec_escSecond(q, c)) == 0 && spec_scanRune(spec_escFirst(q, c), spec_escSecond(q, c)) == c && spec_scanLen(spec_escFirst(q, c)) == spec_escLen(q, c)
-//@ lemma escScanInverse1 [C06] forall q rune, c rune, x rune :: (q == '\'' || q == '"') && c != 0 && spec_escSecond(q, c) == 0 ==>
+//@ lemma escScanInverse1 [C06, C02] forall q rune, c rune, x rune :: (q == '\'' || q == '"') && c != 0 && spec_escSecond(q, c) == 0 ==>
 //@     | spec_scanKind(q, spec_escFirst(q, c), x) == 0 && spec_scanRune(spec_escFirst(q, c), x) == c && spec_scanLen(spec_escFirst(q, c)) == spec_escLen(q, c)
-//@ lemma escNoBreakout [C06] forall q rune, c rune, x rune :: (q == '\'' || q == '"') ==>
+//@ lemma escNoBreakout [C06, C02] forall q rune, c rune, x rune :: (q == '\'' || q == '"') ==>
 //@     | spec_scanKind(q, spec_escFirst(q, c), ite(spec_escSecond(q, c) != 0, spec_escSecond(q, c), x)) != 1 && spec_scanKind(q, spec_escFirst(q, c), ite(spec_escSecond(q, c) != 0, spec_escSecond(q, c), x)) != 3
-//@ lemma escConsumesOnlyItself [C06] forall q rune, c rune, x rune :: (q == '\'' || q == '"') && spec_scanKind(q, spec_escFirst(q, c), ite(spec_escSecond(q, c) != 0, spec_escSecond(q, c), x)) == 0 ==>
+//@ lemma escConsumesOnlyItself [C06, C02] forall q rune, c rune, x rune :: (q == '\'' || q == '"') && spec_scanKind(q, spec_escFirst(q, c), ite(spec_escSecond(q, c) != 0, spec_escSecond(q, c), x)) == 0 ==>
 //@     | spec_scanLen(spec_escFirst(q, c)) == spec_escLen(q, c)
-//@ lemma quoteTerminates [C06] forall q rune, x rune :: q != 0 && q != '\n' ==> spec_scanKind(q, q, x) == 1
+//@ lemma quoteTerminates [C06, C02] forall q rune, x rune :: q != 0 && q != '\n' ==> spec_scanKind(q, q, x) == 1
 
 //@ func QuoteString
-//@   props C06
+//@   props C06 C02
 //@   safety C06
 //@   ensures result == scat(scat("'", libcall("(*strings.Replacer).Replace", qsReplacer, s)), "'")
 
@@ -172,7 +172,7 @@ package influxql
 // a non-identifier character later on all force quotes (so the bare scan of an
 // unquoted name can never produce a keyword token or stop early).
 //@ func IdentNeedsQuotes
-//@   props C06 C04
+//@   props C06 C02 C04
 //@   safety C04
 //@   ensures [C06] @keyword call("Lookup", ident) != IDENT ==> result
 //@   loop 1 step [C06] @firstchar (i == 0 && !spec_isIdentFirst(r)) ==> false
@@ -181,7 +181,7 @@ package influxql
 // QuoteIdent is on every printing path: it may write only memory it allocated
 // itself (in particular no builder or buffer that outlives the call).
 //@ func QuoteIdent
-//@   props C06 C04 C17
+//@   props C06 C02 C04 C17
 //@   safety C04
 //@   modifies fresh
 //@   frameprops C17 C14
